@@ -31,6 +31,27 @@ def path_text(path: Sequence[CFGNode]) -> List[str]:
 
 
 # ----------------------------------------------------------------------------- T5
+def binding_key(f: FuncInfo, v: str) -> Optional[str]:
+    """Canonical text of the first statement that binds local `v` (v written @, other locals $1, $2, …): the
+    rename-proof way to name a local variable in triage/exceptions.json."""
+    import re
+
+    from .report import canonical_construct
+
+    for n in walk_no_nested(f.node):
+        tgt = None
+        if isinstance(n, ast.Assign):
+            tgt, txt = n.targets, norm(n)
+        elif isinstance(n, (ast.AugAssign, ast.AnnAssign)):
+            tgt, txt = [n.target], norm(n)
+        elif isinstance(n, (ast.For, ast.AsyncFor)):
+            tgt, txt = [n.target], f"for {norm(n.target)} in {norm(n.iter)}"
+        if tgt and any(isinstance(x, ast.Name) and x.id == v for t in tgt for x in ast.walk(t)):
+            txt = re.sub(rf"(?<![\.\w]){re.escape(v)}\b", "@", txt)
+            return canonical_construct(txt, f.qualname)
+    return None
+
+
 def definite_assignment(rep: Report, rule: str, f: FuncInfo) -> int:
     """No local name may be read on a path on which it was never bound. One obligation per local name."""
     cfg = cfg_of(f)
@@ -44,7 +65,7 @@ def definite_assignment(rep: Report, rule: str, f: FuncInfo) -> int:
     for v in locs:
         if v in bad:
             node, w = bad[v]
-            reason = is_excepted(rep.prop, rule, f.qualname, v)
+            reason = is_excepted(rep.prop, rule, f.qualname, v, binding=binding_key(f, v))
             if reason:
                 rep.ok(rule, f"{f.short}: {v}", f.loc(node.ast), construct=f"use of {v}", detail="triaged exception: " + reason, function=f.qualname)
                 rep.count("triaged_exceptions")
